@@ -45,7 +45,7 @@ def run(ctx):
     ctx.rule = ('dual-polarisation signals with arbitrary (not unit-modulus) complex samples over 6 decades of amplitude, both bases, '
                 'complex64/128, 1..4 channels, 0..2 trailing dims, NumPy and Dask data; all conversions, Stokes, intensity, component access. '
                 'non-trivial: every case; distinct by (shape, dtype, basis, container, seed).')
-    ctx.trusted = ['Coq 8.16.1 kernel + stdlib real-number axioms; vm_compute on primitive floats (kernel float primitives)',
+    ctx.trusted = ['translator T11 translate/py_pol2coq.py (formulas of to_intensity / to_linear / to_circular / to_stokes over the abstract carrier)', 'Coq 8.16.1 kernel + stdlib real-number axioms; vm_compute on primitive floats (kernel float primitives)',
                    'translator T2 (_stokes_ids)', 'numpy elementwise arithmetic within 16 ulp of the formula']
     ctx.assumptions = ['tolerance 16 ulp of the working precision times the local power |x|^2+|y|^2 (or amplitude for conversions)']
     ctx.regen()
